@@ -34,7 +34,7 @@ static void build(ps_table& t, const Shape& s, const char* tag){
   memset(&t, 0, sizeof t); unsigned nd = s.nd; t.ndim = nd; t.order = blk<uint32_t>(nd); t.nknots = blk<uint64_t>(nd); t.naxes = blk<uint64_t>(nd); t.strides = blk<uint64_t>(nd); t.knots = blk<vr64*>(nd); t.extents = blk<vr64*>(nd); t.extents[0] = blk<vr64>(2 * nd);
   t.periods = s.periods ? blk<vr64>(nd) : 0; uint64_t nc = 1;
   for (int d = nd - 1; d >= 0; d--) { unsigned o = s.order[d]; t.order[d] = o; t.nknots[d] = s.nk[d]; t.naxes[d] = s.nk[d] - o - 1; t.strides[d] = nc; nc *= t.naxes[d];
-    vr64* b = blk<vr64>(s.nk[d] + 2 * o); for (unsigned i = 0; i < s.nk[d] + 2 * o; i++) { char nm[40]; snprintf(nm, 40, "%sk%d_%u", tag, d, i); b[i] = vs_var(nm); } t.knots[d] = b + o; t.extents[d] = t.extents[0] + 2 * d;
+    vr64* b = blk<vr64>(s.nk[d] + 2 * o); for (unsigned i = 0; i < s.nk[d] + 2 * o; i++) { char nm[40]; snprintf(nm, 40, "%sk%d_%u", tag, d, i); b[i] = (i >= o && i < o + s.nk[d]) ? vs_var_ranked(nm, (int)i) : vs_var(nm); }   /* the reader requires finite, sorted knots: ranked variables; padding stays arbitrary */ t.knots[d] = b + o; t.extents[d] = t.extents[0] + 2 * d;
     char nm[40]; snprintf(nm, 40, "%selo%d", tag, d); t.extents[d][0] = vs_var(nm); snprintf(nm, 40, "%sehi%d", tag, d); t.extents[d][1] = vs_var(nm); if (s.periods) { snprintf(nm, 40, "%sper%d", tag, d); t.periods[d] = vs_var(nm); } }
   t.coefficients = blk<vr32>(nc); for (uint64_t i = 0; i < nc; i++) { char nm[40]; snprintf(nm, 40, "%sc%llu", tag, (unsigned long long)i); t.coefficients[i] = (vr32)vs_var(nm); }
   t.naux = s.aux.size(); t.aux = t.naux ? blk<char**>(t.naux) : 0; for (unsigned i = 0; i < t.naux; i++) { t.aux[i] = blk<char*>(2); t.aux[i][0] = dupstr(s.aux[i].first); t.aux[i][1] = dupstr(s.aux[i].second); }
